@@ -39,6 +39,10 @@ var c01FileCases = []faCase{
 		patch: "@@\nvar x identifier\n@@\n-x.Lock()\n-defer x.Unlock()\n+guard(x)\n",
 		minus: "package p\n\nfunc f(n int) int {\n\t⟦«x:mu».Lock()\n\tdefer «x:mu».Unlock()⟧\n\t{\n\t\t⟦«x:rw».Lock()\n\t\tdefer «x:rw».Unlock()⟧\n\t}\n\tn = a(n)\n\tn = b(n)\n\treturn n\n}\n\nfunc g() {\n\tpre()\n\t{\n\t\t⟦«x:zz».Lock()\n\t\tdefer «x:zz».Unlock()⟧\n\t}\n\t⟦«x:yy».Lock()\n\tdefer «x:yy».Unlock()⟧\n\tpost()\n}\n",
 		plus:  "package p\n\nfunc f(n int) int {\n\t⟦guard(«x»)⟧\n\t{\n\t\t⟦guard(«x»)⟧\n\t}\n\tn = a(n)\n\tn = b(n)\n\treturn n\n}\n\nfunc g() {\n\tpre()\n\t{\n\t\t⟦guard(«x»)⟧\n\t}\n\t⟦guard(«x»)⟧\n\tpost()\n}\n"},
+	{name: "stmt-minus-first-then-elision",
+		patch: "@@\nvar m identifier\n@@\n-m.Lock()\n ...\n m.Unlock()\n",
+		minus: "package p\n\nfunc f() {\n\tbefore1()\n\tbefore2()\n\t⟦«m:mu».Lock()\n\t«d1:work(1)»\n\t«m:mu».Unlock()⟧\n\tafter()\n}\n\nfunc g(k int) {\n\tswitch k {\n\tcase 1:\n\t\tpre()\n\t\t⟦«m:rw».Lock()\n\t\t«d1:a(); b()»\n\t\t«m:rw».Unlock()⟧\n\t}\n}\n",
+		plus:  "package p\n\nfunc f() {\n\tbefore1()\n\tbefore2()\n\t⟦«d1»\n\t«m».Unlock()⟧\n\tafter()\n}\n\nfunc g(k int) {\n\tswitch k {\n\tcase 1:\n\t\tpre()\n\t\t⟦«d1»\n\t\t«m».Unlock()⟧\n\t}\n}\n"},
 	{name: "stmt-in-case-and-select",
 		patch: "@@\nvar x identifier\n@@\n-x.Lock()\n+lock(x)\n",
 		minus: "package p\n\nfunc f(c chan int) {\n\tswitch {\n\tcase true:\n\t\t⟦«x:mu».Lock()⟧\n\t}\n\tselect {\n\tcase <-c:\n\t\tpre()\n\t\t⟦«x:rw».Lock()⟧\n\t}\n}\n",
